@@ -207,6 +207,54 @@ func TestVF_CryptoParams(t *testing.T) {
 			}
 		}
 	}
+	// main-cookie size sweep: the e-mail (provider-controlled, any length) makes the main cookie grow up
+	// to and beyond the codec's length cap; whatever is emitted at any size must still be opaque (a Save
+	// that fails emits nothing and is not a C09 matter)
+	sweepSaved, sweepRefused := 0, 0
+	{
+		key := vfCPRandString(r, 48, vfCPB64)
+		sm, err := vfMiscNewSessionManager(key, true)
+		if err != nil {
+			t.Fatalf("NewSessionManager: %v", err)
+		}
+		step := 24
+		if vfTier() == "thorough" {
+			step = 5
+		}
+		for n := 16; n <= 3400; n += step {
+			email := "u-" + vfCPRandString(r, n, vfCPHex) + "@s-" + vfCPRandString(r, 8, vfCPHex) + ".example"
+			csrf := vfCPRandString(r, 36, vfCPHex)
+			nonce := vfCPRandString(r, 44, vfCPB64)
+			lines, err := vfMiscSaveSession(sm, true, false, email, "", "", csrf, nonce, "", "/p")
+			if err != nil {
+				sweepRefused++
+				continue
+			}
+			sweepSaved++
+			secrets := []vfCPSecret{{"email", []byte(email)}, {"email_part", []byte(email[2:18])}, {"state", []byte(csrf)}, {"nonce", []byte(nonce)}}
+			hdr := http.Header{}
+			for _, l := range lines {
+				hdr.Add("Set-Cookie", l)
+			}
+			for _, c := range vfParseSetCookies(hdr) {
+				views := vfCPViews(c.Value)
+				cc := vfCPCookie{ID: id, Kind: "size-sweep", KeyIdx: -1, Session: n, Name: c.Name, ValueLen: len(c.Value), Views: len(views), Visible: []string{}}
+				id++
+				cookies++
+				seen := map[string]bool{}
+				for _, v := range views {
+					for _, s := range secrets {
+						if !seen[s.Name] && bytes.Contains(v, s.Val) {
+							seen[s.Name] = true
+							cc.Visible = append(cc.Visible, s.Name)
+							hits = append(hits, hit{s.Name, c.Name, -1, n})
+						}
+					}
+				}
+				out.put(cc)
+			}
+		}
+	}
 	if !selfTest {
 		t.Fatalf("key-less decoder self-test did not run")
 	}
@@ -223,6 +271,8 @@ func TestVF_CryptoParams(t *testing.T) {
 		"visible_total":      len(hits),
 		"first_visible":      first,
 		"cookies_inspected":  cookies,
+		"sweep_saved":        sweepSaved,
+		"sweep_refused":      sweepRefused,
 		"keys":               nkeys,
 		"token_sizes":        sizes,
 		"decoder_selftest":   selfTest,
